@@ -21,7 +21,7 @@ VERDICT_NO_PRE = "unable_to_meet_precondition"
 VERDICT_ERROR = "error"
 VERDICT_SKIPPED = "skipped"
 
-STATS = {"conditions": 0, "confirmed": 0, "counterexamples": 0, "inconclusive": 0, "crosshair_s": 0.0}
+STATS = {"conditions": 0, "confirmed": 0, "counterexamples": 0, "inconclusive": 0, "crosshair_s": 0.0, "slowest_condition_s": 0.0}
 
 
 def find_line(path, funcname):
@@ -99,6 +99,7 @@ def run_condition(path, funcname, timeout_s, extra_env=None, per_path_timeout=No
     dt = time.time() - t0
     STATS["conditions"] += 1
     STATS["crosshair_s"] += dt
+    STATS["slowest_condition_s"] = round(max(STATS["slowest_condition_s"], dt), 1)
     verdict, msg, args = VERDICT_ERROR, out[-600:], None
     for ln in out.splitlines():
         if ": error:" in ln:
